@@ -335,6 +335,17 @@ func ruleC20(c *Ctx) {
 					c.ok("T10", c.P.declName(fd), "same posting aggregation as sibling", fd.Pos(), "the calculator returns the result of its sibling (delegation)")
 					continue
 				}
+				// the aggregation lives in helpers (methods of the balances type): the calculator is identified with
+				// the set of accumulation sites it reaches; siblings that reach the same sites aggregate identically
+				if sites := balanceAddSites(c, c.P.ssaOf(fd)); len(sites) > 0 {
+					var keys []string
+					for _, st := range sites {
+						keys = append(keys, c.P.pos(st.call.Pos()))
+					}
+					sort.Strings(keys)
+					calcs = append(calcs, calc{fd, "shared accumulation sites: " + strings.Join(keys, ", ")})
+					continue
+				}
 				c.undecided("T10", c.P.declName(fd), "posting loop", fd.Pos(), "balance calculator without a loop over Postings")
 				continue
 			}
@@ -357,49 +368,13 @@ func ruleC20(c *Ctx) {
 	// for postings that carry an amount (control dependence on the amount pointer being non-nil, written either
 	// as `if p.Amount == nil { continue }` or as `if p.Amount != nil { ... }`)
 	for _, cl := range calcs {
-		F := c.P.ssaOf(cl.fd)
 		okSkip, okAdd := false, false
-		if F != nil {
-			for _, blk := range F.Blocks {
-				for _, ins := range blk.Instrs {
-					call, ok := ins.(*ssa.Call)
-					if !ok {
-						continue
-					}
-					cal := call.Common().StaticCallee()
-					if cal == nil || cal.Name() != "Add" || cal.Pkg == nil || cal.Pkg.Pkg.Path() != decimalPkg {
-						continue
-					}
-					// an operand read from <posting>.Amount.Quantity
-					var amountPtr ssa.Value
-					for _, a := range call.Common().Args {
-						for v := range backSlice(a) {
-							if fa, ok := v.(*ssa.FieldAddr); ok {
-								bt := fa.X.Type().Underlying().(*types.Pointer).Elem()
-								if typeHasSuffix(bt, "/ast.Amount") && bt.Underlying().(*types.Struct).Field(fa.Field).Name() == "Quantity" {
-									amountPtr = fa.X
-								}
-							}
-						}
-					}
-					if amountPtr == nil {
-						continue
-					}
-					okAdd = true
-					for _, cc := range controlCondsPol(blk) {
-						bo, ok := cc.Cond.(*ssa.BinOp)
-						if !ok {
-							continue
-						}
-						isNilCmp := func(x, y ssa.Value) bool {
-							k, isK := y.(*ssa.Const)
-							return isK && k.IsNil() && sameLoad(x, amountPtr)
-						}
-						if (isNilCmp(bo.X, bo.Y) || isNilCmp(bo.Y, bo.X)) && ((bo.Op == token.NEQ && cc.Taken) || (bo.Op == token.EQL && !cc.Taken)) {
-							okSkip = true
-						}
-					}
-				}
+		sites := balanceAddSites(c, c.P.ssaOf(cl.fd))
+		okAdd = len(sites) > 0
+		okSkip = okAdd
+		for _, st := range sites {
+			if !st.guarded {
+				okSkip = false
 			}
 		}
 		c.check(okSkip && okAdd, "T10", c.P.declName(cl.fd), "sums explicitly posted amounts with Add", cl.fd.Pos(),
@@ -512,84 +487,17 @@ func ruleC20(c *Ctx) {
 		c.undecided("C20-ONCE", "include.ResolvedJournal.AllTransactions", "anchor", token.NoPos, "method not found")
 		return
 	}
-	// on SSA, in the method and the module helpers it hands the tree to: the primary journal contributes outside
-	// any loop, the included files contribute inside a loop over FileOrder (each listed file once), and no
-	// iteration over the Files map contributes (order and multiplicity of a map walk are not the listed ones)
-	nPrimary, nLoop, nMapWalk := 0, 0, 0
+	// contribution analysis on SSA: which parts of the tree end up in the returned list, and how often.  The list
+	// may be assembled in stages (a list of journals first, then their transactions; generic helpers; a selector
+	// function): every append site that feeds the returned value contributes the sources its operand derives
+	// from - the primary journal (P), the file listed at the current position of FileOrder (F, once per position
+	// when the site sits in exactly one loop and that loop runs over FileOrder), or whatever the elements of an
+	// intermediate list stand for (when the one enclosing loop runs over that list).  A walk over the Files map,
+	// a nested or foreign loop, or a second site for the same source makes the multiplicity "many".
+	nPrimary, nLoop := 0, 0
 	if AT := c.P.ssaOf(all); AT != nil {
-		fns := []*ssa.Function{AT}
-		for _, blk := range AT.Blocks {
-			for _, ins := range blk.Instrs {
-				if call, ok := ins.(ssa.CallInstruction); ok {
-					if cal := call.Common().StaticCallee(); cal != nil && inModule(cal) && cal.Blocks != nil {
-						for _, a := range call.Common().Args {
-							if typeHasSuffix(a.Type(), "include.ResolvedJournal") {
-								fns = append(fns, cal)
-							}
-						}
-					}
-				}
-			}
-		}
-		fieldRead := func(sl map[ssa.Value]bool, name string) bool {
-			for v := range sl {
-				switch x := v.(type) {
-				case *ssa.FieldAddr:
-					bt := x.X.Type().Underlying().(*types.Pointer).Elem()
-					if typeHasSuffix(bt, "include.ResolvedJournal") && bt.Underlying().(*types.Struct).Field(x.Field).Name() == name {
-						return true
-					}
-				case *ssa.Field:
-					if typeHasSuffix(x.X.Type(), "include.ResolvedJournal") && x.X.Type().Underlying().(*types.Struct).Field(x.Field).Name() == name {
-						return true
-					}
-				}
-			}
-			return false
-		}
-		for _, f := range fns {
-			for _, blk := range f.Blocks {
-				for _, ins := range blk.Instrs {
-					call, ok := ins.(*ssa.Call)
-					if !ok {
-						continue
-					}
-					if bi, ok := call.Call.Value.(*ssa.Builtin); !ok || bi.Name() != "append" || len(call.Call.Args) < 2 {
-						continue
-					}
-					sl := backSlice(call.Call.Args[1])
-					viaMapWalk := false
-					for v := range sl {
-						if ex, ok := v.(*ssa.Extract); ok {
-							if nx, ok := ex.Tuple.(*ssa.Next); ok {
-								if rg, ok := nx.Iter.(*ssa.Range); ok {
-									if _, isMap := rg.X.Type().Underlying().(*types.Map); isMap && fieldRead(backSlice(rg.X), "Files") {
-										viaMapWalk = true
-									}
-								}
-							}
-						}
-					}
-					switch {
-					case viaMapWalk:
-						nMapWalk++
-					case fieldRead(sl, "Primary"):
-						if inCycle(blk) {
-							nPrimary += 100
-						} else {
-							nPrimary++
-						}
-					case fieldRead(sl, "Files") && fieldRead(sl, "FileOrder"):
-						if inCycle(blk) {
-							nLoop++
-						}
-					}
-				}
-			}
-		}
-	}
-	if nMapWalk > 0 {
-		nLoop += 100
+		contrib := listContrib(AT, 0, map[*ssa.Function]bool{})
+		nPrimary, nLoop = contrib["P"], contrib["F"]
 	}
 	c.check(nPrimary == 1 && nLoop == 1, "C20-ONCE", c.P.declName(all), "primary once, then each ordered file", all.Pos(),
 		"AllTransactions appends the primary journal once and then walks FileOrder once", fmt.Sprintf("AllTransactions does not have the shape 'primary once + one pass over FileOrder' (primary appends: %d, loops: %d)", nPrimary, nLoop))
@@ -1643,4 +1551,225 @@ func sliceHasParamOf(sl map[ssa.Value]bool, f *ssa.Function) bool {
 		}
 	}
 	return false
+}
+
+// treeFieldRead: the slice reads field `name` of an include.ResolvedJournal.
+func treeFieldRead(sl map[ssa.Value]bool, name string) bool {
+	for v := range sl {
+		switch x := v.(type) {
+		case *ssa.FieldAddr:
+			bt := x.X.Type().Underlying().(*types.Pointer).Elem()
+			if typeHasSuffix(bt, "include.ResolvedJournal") && bt.Underlying().(*types.Struct).Field(x.Field).Name() == name {
+				return true
+			}
+		case *ssa.Field:
+			if typeHasSuffix(x.X.Type(), "include.ResolvedJournal") && x.X.Type().Underlying().(*types.Struct).Field(x.Field).Name() == name {
+				return true
+			}
+		}
+	}
+	return false
+}
+
+// enclosingListLoops: the lists whose index loops (`i < len(L)`) control the block and contain it.
+func enclosingListLoops(b *ssa.BasicBlock) []ssa.Value {
+	var out []ssa.Value
+	for _, cc := range controlCondsPol(b) {
+		bo, ok := cc.Cond.(*ssa.BinOp)
+		if !ok || bo.Op != token.LSS || !cc.Taken {
+			continue
+		}
+		call, ok := bo.Y.(*ssa.Call)
+		if !ok {
+			continue
+		}
+		if bi, ok := call.Call.Value.(*ssa.Builtin); !ok || bi.Name() != "len" || len(call.Call.Args) != 1 {
+			continue
+		}
+		if !inCycle(bo.Block()) || !reachesBlock(b, bo.Block()) {
+			continue
+		}
+		out = append(out, call.Call.Args[0])
+	}
+	return out
+}
+
+// listContrib: source -> multiplicity (100 and more = many) of what the list returned by f is made of.
+func listContrib(f *ssa.Function, depth int, busy map[*ssa.Function]bool) map[string]int {
+	out := map[string]int{}
+	if f == nil || f.Blocks == nil || depth > 4 || busy[f] {
+		return out
+	}
+	busy[f] = true
+	defer delete(busy, f)
+	// the values returned
+	ret := map[ssa.Value]bool{}
+	for _, b := range f.Blocks {
+		for _, ins := range b.Instrs {
+			if r, ok := ins.(*ssa.Return); ok && len(r.Results) >= 1 {
+				rv := unspillResult(r.Results[0], b)
+				// a plain hand-over: `return helper(r, ...)`
+				if call, ok := rv.(*ssa.Call); ok {
+					if cal := call.Call.StaticCallee(); cal != nil && inModule(cal) && cal.Blocks != nil {
+						for k, v := range listContrib(cal, depth+1, busy) {
+							out[k] += v
+						}
+						continue
+					}
+				}
+				for v := range backSlice(rv) {
+					ret[v] = true
+				}
+			}
+		}
+	}
+	for _, b := range f.Blocks {
+		for _, ins := range b.Instrs {
+			call, ok := ins.(*ssa.Call)
+			if !ok || !ret[call] {
+				continue
+			}
+			if bi, ok := call.Call.Value.(*ssa.Builtin); !ok || bi.Name() != "append" || len(call.Call.Args) < 2 {
+				continue
+			}
+			sl := backSlice(call.Call.Args[1])
+			loops := enclosingListLoops(b)
+			mult := 1
+			if inCycle(b) && len(loops) != 1 {
+				mult = 100
+			}
+			// a walk over the Files map: neither order nor multiplicity are the listed ones
+			for v := range sl {
+				if ex, ok := v.(*ssa.Extract); ok {
+					if nx, ok := ex.Tuple.(*ssa.Next); ok {
+						if rg, ok := nx.Iter.(*ssa.Range); ok {
+							if _, isMap := rg.X.Type().Underlying().(*types.Map); isMap && treeFieldRead(backSlice(rg.X), "Files") {
+								out["F"] += 100
+							}
+						}
+					}
+				}
+			}
+			if inCycle(b) && len(loops) == 1 {
+				lsl := backSlice(loops[0])
+				// the loop runs over an intermediate list built by a module function: its elements stand for
+				// that list's sources
+				var inner map[string]int
+				if lc, ok := stripConv(loops[0]).(*ssa.Call); ok {
+					if cal := lc.Call.StaticCallee(); cal != nil && inModule(cal) && cal.Blocks != nil {
+						inner = listContrib(cal, depth+1, busy)
+					}
+				}
+				switch {
+				case inner != nil && len(inner) > 0:
+					for k, v := range inner {
+						out[k] += v * mult
+					}
+					continue
+				case treeFieldRead(lsl, "FileOrder"):
+					if treeFieldRead(sl, "Files") || treeFieldRead(sl, "FileOrder") {
+						out["F"] += mult
+					}
+					if treeFieldRead(sl, "Primary") {
+						out["P"] += 100 // the primary once per listed file
+					}
+					continue
+				default:
+					// a loop over something else
+					if treeFieldRead(sl, "Primary") {
+						out["P"] += 100
+					}
+					if treeFieldRead(sl, "Files") {
+						out["F"] += 100
+					}
+					continue
+				}
+			}
+			if treeFieldRead(sl, "Primary") {
+				out["P"] += mult
+			}
+			if treeFieldRead(sl, "Files") && !inCycle(b) {
+				out["F"] += 100 // files added outside any loop over FileOrder
+			}
+		}
+	}
+	return out
+}
+
+type balanceAddSite struct {
+	call    *ssa.Call
+	guarded bool // control dependent on the posting's amount being present
+}
+
+// balanceAddSites: the decimal Add calls that accumulate <posting>.Amount.Quantity, in f or in functions of its
+// package that f reaches through static calls.
+func balanceAddSites(c *Ctx, f *ssa.Function) []balanceAddSite {
+	if f == nil {
+		return nil
+	}
+	var fns []*ssa.Function
+	seen := map[*ssa.Function]bool{}
+	var walk func(g *ssa.Function, depth int)
+	walk = func(g *ssa.Function, depth int) {
+		if g == nil || g.Blocks == nil || seen[g] || depth > 4 {
+			return
+		}
+		seen[g] = true
+		fns = append(fns, g)
+		for _, b := range g.Blocks {
+			for _, ins := range b.Instrs {
+				if call, ok := ins.(ssa.CallInstruction); ok {
+					if cal := call.Common().StaticCallee(); cal != nil && cal.Pkg == f.Pkg {
+						walk(cal, depth+1)
+					}
+				}
+			}
+		}
+	}
+	walk(f, 0)
+	var out []balanceAddSite
+	for _, g := range fns {
+		for _, blk := range g.Blocks {
+			for _, ins := range blk.Instrs {
+				call, ok := ins.(*ssa.Call)
+				if !ok {
+					continue
+				}
+				cal := call.Common().StaticCallee()
+				if cal == nil || cal.Name() != "Add" || cal.Pkg == nil || cal.Pkg.Pkg.Path() != decimalPkg {
+					continue
+				}
+				var amountPtr ssa.Value
+				for _, a := range call.Common().Args {
+					for v := range backSlice(a) {
+						if fa, ok := v.(*ssa.FieldAddr); ok {
+							bt := fa.X.Type().Underlying().(*types.Pointer).Elem()
+							if typeHasSuffix(bt, "/ast.Amount") && bt.Underlying().(*types.Struct).Field(fa.Field).Name() == "Quantity" {
+								amountPtr = fa.X
+							}
+						}
+					}
+				}
+				if amountPtr == nil {
+					continue
+				}
+				guarded := false
+				for _, cc := range controlCondsPol(blk) {
+					bo, ok := cc.Cond.(*ssa.BinOp)
+					if !ok {
+						continue
+					}
+					isNilCmp := func(x, y ssa.Value) bool {
+						k, isK := y.(*ssa.Const)
+						return isK && k.IsNil() && sameLoad(x, amountPtr)
+					}
+					if (isNilCmp(bo.X, bo.Y) || isNilCmp(bo.Y, bo.X)) && ((bo.Op == token.NEQ && cc.Taken) || (bo.Op == token.EQL && !cc.Taken)) {
+						guarded = true
+					}
+				}
+				out = append(out, balanceAddSite{call, guarded})
+			}
+		}
+	}
+	return out
 }
